@@ -672,7 +672,9 @@ func (dsc *dataStoreCommand) bitfieldWrite(keyName string, ops []*bitfieldOp) (o
 						// unsigned number: it saturates at the top
 						newValue = saturateValue(false, 1, bits)
 					} else {
-						newValue = saturateValue(op.signed, newValue, bits)
+						// the direction is the operand's sign (the sum may have
+						// wrapped around in 64 bits)
+						newValue = saturateValue(op.signed, op.value, bits)
 					}
 				case OFLOW_FAIL:
 					results = append(results, nil)
